@@ -208,6 +208,19 @@ func zzSchema(k int) map[string]*Decl {
 			"a": {CustomFunc: &CustomFuncDecl{Name: "failif", Args: []*Decl{{XPath: zzS("A[1]/A/v")}}, IgnoreError: true}},
 			"b": {CustomFunc: &CustomFuncDecl{Name: "failif", Args: []*Decl{{XPath: zzS("A[1]/A/v")}}}},
 		}}}
+	case 15: // ignore_error reached only through a template
+		return map[string]*Decl{
+			"t5": {CustomFunc: &CustomFuncDecl{Name: "failif", Args: []*Decl{{XPath: zzS("A[1]/A/v")}}, IgnoreError: true}},
+			finalOutput: {Object: map[string]*Decl{
+				"x": {Template: zzS("t5")},
+				"c": {Const: zzS("c")},
+			}}}
+	case 16: // a field and an empty object with the same xpath: different declarations
+		return map[string]*Decl{finalOutput: {Object: map[string]*Decl{
+			"a": {XPath: zzS("B")},
+			"b": {XPath: zzS("B"), Object: map[string]*Decl{}},
+			"c": {XPath: zzS("B"), Array: []*Decl{}},
+		}}}
 	case 14: // field names with the characters the fqdn escaping touches
 		return map[string]*Decl{finalOutput: {Object: map[string]*Decl{
 			"p%q": {XPath: zzS("B")},
@@ -223,7 +236,7 @@ func zzSchema(k int) map[string]*Decl {
 	}
 }
 
-const zzNumSchemas = 15
+const zzNumSchemas = 17
 
 func zzText(name string) string { return zzTextN(name, 2) }
 
